@@ -276,7 +276,14 @@ def resolve(pkg, t):
     if k == "opt":
         return ["opt", resolve(pkg, t[1])]
     if k == "union":
-        cases = [[c[0] or "", resolve(pkg, c[1])] for c in t[2]]
+        # list-form unions get yardl's derived tags: TypeToShortSyntax(type, qualified=false)
+        def derived(ct):
+            if ct[0] == "prim":
+                return ct[1]
+            if ct[0] == "named":
+                return ct[1].split(".")[-1]
+            return ""
+        cases = [[c[0] or derived(c[1]), resolve(pkg, c[1])] for c in t[2]]
         if t[1] and len(cases) == 1:
             return ["opt", cases[0][1]]
         return ["union", t[1], cases]
@@ -328,6 +335,7 @@ class Gen:
         self.allow_generics = allow_generics
         self.max_depth = max_depth
         self.bare_tparam_alias = False
+        self.allow_some_none = False
         # regions of known findings, avoided by default (each has a witness replayed by its owner):
         self.avoid_bool_sequences = True      # C08: `bool*` / stream of bool does not compile in C++
         self.avoid_py_array_regions = True    # C03: Python arrays of variable-length vectors / of records
@@ -746,7 +754,18 @@ class Gen:
         if k == "opt":
             if r.random() < 0.35:
                 return ["none"]
-            return ["some", self.gen_value(ty[1], size)]
+            inner = self.gen_value(ty[1], size)
+            if (self.json_safe or not self.allow_some_none) and inner == ["none"]:
+                # some(none) of a nested optional (only reachable through an alias) is not representable
+                # in JSON (both are null) nor in Python (Optional[Optional[T]] collapses): region of a
+                # known finding (C03), avoided unless asked for
+                for _ in range(20):
+                    inner = self.gen_value(ty[1], size)
+                    if inner != ["none"]:
+                        break
+                else:
+                    return ["none"]
+            return ["some", inner]
         if k == "union":
             has_null, cases = ty[1], ty[2]
             if has_null and r.random() < 0.25:
@@ -923,6 +942,15 @@ def directed_package(namespace="Dir"):
     pkg.defs.append({"kind": "record", "name": "Pair", "tparams": ["A", "B"],
                      "fields": [("first", ("tparam", "A")), ("second", ("tparam", "B"))]})
     pkg.defs.append({"kind": "alias", "name": "Img", "tparams": ["T"], "type": ("arr", ("tparam", "T"), ("dyn",))})
+    pkg.defs.append({"kind": "alias", "name": "MaybeInt", "tparams": [], "type": ("opt", P("int32"))})
+    pkg.defs.append({"kind": "alias", "name": "MaybeIntAgain", "tparams": [], "type": ("named", "MaybeInt", [])})
+    pkg.defs.append({"kind": "alias", "name": "OptU", "tparams": [], "type": ("union", True, [(None, P("int32")), (None, P("string"))])})
+    pkg.defs.append({"kind": "alias", "name": "Opt", "tparams": ["T"], "type": ("opt", ("tparam", "T"))})
+    pkg.defs.append({"kind": "record", "name": "WithAliases", "tparams": [],
+                     "fields": [("a", ("named", "MaybeInt", [])), ("b", ("named", "OptU", [])), ("c", ("named", "Opt", [P("string")])),
+                                ("d", ("named", "MaybeIntAgain", [])), ("e", P("int32")), ("f", ("opt", P("float64"))),
+                                # optional of an alias that is itself optional: two presence flags on the wire
+                                ("g", ("opt", ("named", "MaybeInt", []))), ("h", ("vec", ("opt", ("named", "MaybeIntAgain", [])), None))]})
     ts_elems = ["int8", "uint8", "float32", "float64", "complexfloat32", "complexfloat64", "bool"]
     steps = []
     for i, e in enumerate(ts_elems):
@@ -955,6 +983,14 @@ def directed_package(namespace="Dir"):
     steps.append(("mu", ("map", P("string"), ("union", True, [("uA", P("int32")), ("uB", P("string")), ("uC", ("vec", P("float32"), None))])), True))
     steps.append(("un", ("union", False, [(None, P("int32")), (None, P("float32")), (None, P("string")), (None, ("named", "Pix", []))]), True))
     steps.append(("uu", ("union", True, [("dArr", ("arr", P("float64"), ("dyn",))), ("dMap", ("map", P("string"), P("int64"))), ("dEn", ("named", "DE", []))]), True))
+    # record fields whose nullable type is reached through aliases (omitted when null in NDJSON)
+    steps.append(("wa", ("named", "WithAliases", []), True))
+    steps.append(("ui", ("union", False, [(None, P("int32")), (None, ("named", "DE", []))]), True))
+    # unions whose cases share a JSON representation must be tagged (date/time/datetime are strings)
+    steps.append(("ud", ("union", False, [(None, P("string")), (None, P("date"))]), True))
+    steps.append(("ut", ("union", True, [(None, P("time")), (None, P("string")), (None, P("int32"))]), True))
+    steps.append(("ue", ("union", False, [(None, ("named", "DE", [])), (None, P("string"))]), True))
+    steps.append(("uf", ("union", False, [("ufF", ("named", "DF", [])), ("ufV", ("vec", P("int32"), None))]), False))
     pkg.defs.append({"kind": "protocol", "name": "PMapUnion", "steps": steps})
     return pkg
 
